@@ -344,8 +344,10 @@ Definition vendor_ok (ign : list bytes) (v : gvendor) : Prop :=
   gn_llen v = 1 /\ gn_tlen v = 1 /\ (forall a, In a (vlive ign v) -> invalid_vendor_attr a = false) /\
   (forall a, In a (vlive ign v) -> clean a (gn_vals v)).
 Definition vidents (ign : list bytes) (l : list gvendor) : list bytes := flat_map (fun v => idents (vlive ign v)) l.
-Definition vendors_ok (ign seen : list bytes) (l : list gvendor) : Prop :=
-  (forall v, In v l -> vendor_ok ign v) /\ NoDup (vidents ign l) /\ (forall i, In i (vidents ign l) -> ~ In i seen).
+Definition vnames (l : list gvendor) : list bytes := map gn_ident l.
+Definition vendors_ok (ign seen vseen : list bytes) (l : list gvendor) : Prop :=
+  (forall v, In v l -> vendor_ok ign v) /\ NoDup (vidents ign l) /\ (forall i, In i (vidents ign l) -> ~ In i seen) /\
+  NoDup (vnames l) /\ (forall i, In i (vnames l) -> ~ In i vseen).
 
 Lemma nodup_app_iff {A} (l1 l2 : list A) :
   NoDup (l1 ++ l2) <-> NoDup l1 /\ NoDup l2 /\ (forall x, In x l1 -> ~ In x l2).
@@ -376,17 +378,20 @@ Proof. split; intros H; [eapply Permutation_in; [apply Permutation_sym, sort_per
 Lemma sort_In' {A} (lt : A -> A -> bool) l x : In x l <-> In x (sort lt l).
 Proof. split; apply sort_In. Qed.
 
-Lemma check_vendors_spec ign : forall l seen,
-  match check_vendors ign seen l with
-  | Ok cs => vendors_ok ign seen l /\ cs = map (build ign) l
-  | Err _ => ~ vendors_ok ign seen l
+Lemma check_vendors_spec ign : forall l seen vseen,
+  match check_vendors ign seen vseen l with
+  | Ok cs => vendors_ok ign seen vseen l /\ cs = map (build ign) l
+  | Err _ => ~ vendors_ok ign seen vseen l
   | _ => False
   end.
 Proof.
-  induction l as [|v l IH]; intros seen; cbn [check_vendors].
-  - split; [|reflexivity]. unfold vendors_ok, vidents. cbn. repeat split; try constructor; intros; contradiction.
+  induction l as [|v l IH]; intros seen vseen; cbn [check_vendors].
+  - split; [|reflexivity]. unfold vendors_ok, vidents, vnames. cbn. repeat split; try constructor; intros; contradiction.
   - destruct (negb (gn_llen v =? 1) || negb (gn_tlen v =? 1)) eqn:Ef.
     { intros (H & _). destruct (H v (or_introl eq_refl)) as (H1 & H2 & _). lia. }
+    destruct (mem (gn_ident v) vseen) eqn:Em.
+    { intros (_ & _ & _ & _ & W). apply mem_In in Em. apply (W (gn_ident v)); [left; reflexivity|exact Em]. }
+    apply mem_false in Em.
     pose proof (check_attrs_spec invalid_vendor_attr E_vattr ign (gn_attrs v) seen) as Ha.
     destruct (check_attrs invalid_vendor_attr E_vattr ign seen (gn_attrs v)) as [[kept seen']|x| |]; try contradiction.
     + destruct Ha as ((A1 & A2 & A3) & Hr). inversion Hr; subst kept seen'. fold (vlive ign v) in *.
@@ -395,28 +400,33 @@ Proof.
         assert (Hclean : forall a, In a (vlive ign v) -> clean a (gn_vals v)).
         { intros a Hin. apply (clean_same a (sort value_lt (gn_vals v))); [intros x; apply sort_In|].
           apply check_values_spec, Hn. exact (proj2 (sort_In _ _ _) Hin). }
-        specialize (IH (rev (idents (vlive ign v)) ++ seen)).
-        destruct (check_vendors ign (rev (idents (vlive ign v)) ++ seen) l) as [cs|x| |]; try contradiction.
-        -- destruct IH as ((V1 & V2 & V3) & Hcs). subst cs. split; [|reflexivity].
-           unfold vendors_ok, vidents. cbn [flat_map]. fold (vidents ign l). split; [|split].
+        specialize (IH (rev (idents (vlive ign v)) ++ seen) (gn_ident v :: vseen)).
+        destruct (check_vendors ign (rev (idents (vlive ign v)) ++ seen) (gn_ident v :: vseen) l) as [cs|x| |]; try contradiction.
+        -- destruct IH as ((V1 & V2 & V3 & W1 & W2) & Hcs). subst cs. split; [|reflexivity].
+           unfold vendors_ok, vidents, vnames. cbn [flat_map map]. fold (vidents ign l). fold (vnames l). split; [|split; [|split; [|split]]].
            ++ intros w [<-|Hw]; [|apply V1, Hw]. unfold vendor_ok. repeat split; try lia; assumption.
            ++ apply nodup_app_iff. repeat split; try assumption. intros i Hi Hin. apply (V3 i Hin).
               apply in_or_app. left. apply -> in_rev. exact Hi.
            ++ intros i Hi. apply in_app_or in Hi. destruct Hi as [Hi|Hi]; [apply A3, Hi|].
               intros Hs. apply (V3 i Hi). apply in_or_app. right. exact Hs.
-        -- intros (V1 & V2 & V3). apply IH. unfold vendors_ok. unfold vidents in V2, V3. cbn [flat_map] in V2, V3. fold (vidents ign l) in V2, V3.
-           apply nodup_app_iff in V2. destruct V2 as (N1 & N2 & N3). split; [|split].
+           ++ constructor; [|exact W1]. intros Hin. apply (W2 _ Hin). left. reflexivity.
+           ++ intros i [<-|Hi]; [exact Em|]. intros Hs. apply (W2 i Hi). right. exact Hs.
+        -- intros (V1 & V2 & V3 & W1 & W2). apply IH. unfold vendors_ok. unfold vidents in V2, V3. cbn [flat_map] in V2, V3. fold (vidents ign l) in V2, V3.
+           unfold vnames in W1, W2. cbn [map] in W1, W2. fold (vnames l) in W1, W2.
+           apply nodup_app_iff in V2. destruct V2 as (N1 & N2 & N3). split; [|split; [|split; [|split]]].
            ++ intros w Hw. apply V1. right. exact Hw.
            ++ exact N2.
            ++ intros i Hi Hin. apply in_app_or in Hin. destruct Hin as [Hin|Hin].
               ** apply in_rev in Hin. apply (N3 i Hin Hi).
               ** apply (V3 i); [apply in_or_app; right; exact Hi|exact Hin].
+           ++ inversion W1; assumption.
+           ++ intros i Hi [<-|Hs]; [inversion W1 as [|? ? Hn' _]; apply Hn'; exact Hi|apply (W2 i); [right; exact Hi|exact Hs]].
       * rewrite He. intros (V1 & _). destruct (V1 v (or_introl eq_refl)) as (_ & _ & _ & Hc).
         assert (Hn : first_error (fun a => check_values a (sort value_lt (gn_vals v))) (sort attr_lt (vlive ign v)) = None).
         { apply first_error_none. intros a Hin. apply check_values_spec.
           apply (clean_same a (gn_vals v)); [intros x; apply sort_In'|]. apply Hc. exact (proj1 (sort_In _ _ _) Hin). }
         congruence.
-    + intros (V1 & V2 & V3). apply Ha. destruct (V1 v (or_introl eq_refl)) as (_ & _ & Hv & _).
+    + intros (V1 & V2 & V3 & _). apply Ha. destruct (V1 v (or_introl eq_refl)) as (_ & _ & Hv & _).
       unfold vidents in V2, V3. cbn [flat_map] in V2, V3. apply nodup_app_iff in V2. destruct V2 as (N1 & _ & _).
       split; [exact Hv|]. split; [exact N1|]. intros i Hi. apply V3. apply in_or_app. left. exact Hi.
 Qed.
@@ -442,15 +452,15 @@ Definition accepts : Prop :=
   vals_ok ign (map ga_name attrs) (map fst ext) (gd_vals d) /\
   (forall a, In a A -> clean a locals) /\
   (forall e, In e (go_ext o) -> ext_clean e) /\
-  vendors_ok ign (idents A) (gd_vendors d).
+  vendors_ok ign (idents A) [] (gd_vendors d).
 
 (* what is emitted for them *)
 Definition output : list gdecl :=
   emit attrs ext (sort value_lt locals) exts
        (sort cvendor_lt (map (build ign) (gd_vendors d))).
 
-Lemma vendors_ok_same seen seen' l : (forall i, In i seen <-> In i seen') -> vendors_ok ign seen l -> vendors_ok ign seen' l.
-Proof. intros H (V1 & V2 & V3). split; [exact V1|]. split; [exact V2|]. intros i Hi Hs. apply (V3 i Hi). apply H, Hs. Qed.
+Lemma vendors_ok_same seen seen' vs l : (forall i, In i seen <-> In i seen') -> vendors_ok ign seen vs l -> vendors_ok ign seen' vs l.
+Proof. intros H (V1 & V2 & V3 & W). split; [exact V1|]. split; [exact V2|]. split; [|exact W]. intros i Hi Hs. apply (V3 i Hi). apply H, Hs. Qed.
 
 Theorem gen_refines :
   match gen o d with
@@ -495,8 +505,8 @@ Proof.
       assert (first_error (fun e => check_vals 18446744073709551615 [] (ext_values exts e)) ext = None); [|congruence].
       apply first_error_none. intros x Hin. apply Hext_iff. apply Hc. exact (proj1 (sort_In _ _ _) Hin). }
   rewrite Hx. rewrite first_error_none in Hx.
-  pose proof (check_vendors_spec ign (gd_vendors d) (rev (idents A) ++ [])) as Hvs.
-  destruct (check_vendors ign (rev (idents A) ++ []) (gd_vendors d)) as [cvs|x| |]; try contradiction.
+  pose proof (check_vendors_spec ign (gd_vendors d) (rev (idents A) ++ []) []) as Hvs.
+  destruct (check_vendors ign (rev (idents A) ++ []) [] (gd_vendors d)) as [cvs|x| |]; try contradiction.
   - destruct Hvs as [Hnok ->]. split; [|reflexivity]. unfold accepts.
     split; [exact Haok|]. split; [exact Hvok|]. split; [exact Hclean|].
     split; [intros e He; apply Hext_iff, Hx; exact (proj2 (sort_In _ _ _) He)|].
@@ -628,19 +638,29 @@ Proof.
   apply Permutation_app; [apply Permutation_map, vlive_perm, Hs|exact IH].
 Qed.
 
-Lemma vendors_ok_perm ign seen l l1 l' : Forall2 vendor_same l l1 -> Permutation l1 l' ->
-  vendors_ok ign seen l -> vendors_ok ign seen l'.
+Lemma vnames_same l l1 : Forall2 vendor_same l l1 -> vnames l = vnames l1.
 Proof.
-  intros Hf Hp (V1 & V2 & V3).
+  induction 1 as [|v v1 l l1 Hs _ IH]; [reflexivity|]. unfold vnames in *. cbn [map].
+  destruct Hs as (_ & E & _). rewrite E, IH. reflexivity.
+Qed.
+
+Lemma vendors_ok_perm ign seen vs l l1 l' : Forall2 vendor_same l l1 -> Permutation l1 l' ->
+  vendors_ok ign seen vs l -> vendors_ok ign seen vs l'.
+Proof.
+  intros Hf Hp (V1 & V2 & V3 & W1 & W2).
   assert (Hid : Permutation (vidents ign l) (vidents ign l')).
   { etransitivity; [apply vidents_same, Hf|]. unfold vidents. apply perm_flat_map, Hp. }
-  split; [|split].
+  assert (Hvn : Permutation (vnames l) (vnames l')).
+  { rewrite (vnames_same l l1 Hf). unfold vnames. apply Permutation_map, Hp. }
+  split; [|split; [|split; [|split]]].
   - intros v' Hv'. apply (Permutation_in _ (Permutation_sym Hp)) in Hv'.
     clear -Hf Hv' V1. induction Hf as [|v v1 l l1 Hs _ IH]; [destruct Hv'|].
     destruct Hv' as [<-|Hin]; [apply (vendor_ok_same ign v v1 Hs), V1; left; reflexivity|].
     apply IH; [|exact Hin]. intros w Hw. apply V1. right. exact Hw.
   - eapply Permutation_NoDup; [exact Hid|exact V2].
   - intros i Hi. apply V3. eapply Permutation_in; [apply Permutation_sym, Hid|exact Hi].
+  - eapply Permutation_NoDup; [exact Hvn|exact W1].
+  - intros i Hi. apply W2. eapply Permutation_in; [apply Permutation_sym, Hvn|exact Hi].
 Qed.
 
 Lemma build_map_same ign l l1 : Forall2 vendor_same l l1 ->
@@ -739,9 +759,11 @@ Lemma vidents_strip ign l : vidents [] (map (strip_vendor ign) l) = vidents ign 
 Proof. unfold vidents. induction l as [|v l IH]; [reflexivity|]. cbn [map flat_map]. rewrite vlive_strip, IH. reflexivity. Qed.
 Lemma vendor_ok_strip ign v : vendor_ok [] (strip_vendor ign v) <-> vendor_ok ign v.
 Proof. unfold vendor_ok. rewrite vlive_strip. reflexivity. Qed.
-Lemma vendors_ok_strip ign seen l : vendors_ok [] seen (map (strip_vendor ign) l) <-> vendors_ok ign seen l.
+Lemma vnames_strip ign l : vnames (map (strip_vendor ign) l) = vnames l.
+Proof. unfold vnames. rewrite map_map. reflexivity. Qed.
+Lemma vendors_ok_strip ign seen vs l : vendors_ok [] seen vs (map (strip_vendor ign) l) <-> vendors_ok ign seen vs l.
 Proof.
-  unfold vendors_ok. rewrite vidents_strip. split; intros (V1 & V2 & V3); (split; [|split; assumption]).
+  unfold vendors_ok. rewrite vidents_strip, vnames_strip. split; intros (V1 & V2 & V3); (split; [|split; assumption]).
   - intros v Hv. apply vendor_ok_strip, V1. apply in_map, Hv.
   - intros v Hv. apply in_map_iff in Hv. destruct Hv as (w & <- & Hw). apply vendor_ok_strip, V1, Hw.
 Qed.
